@@ -89,8 +89,13 @@ class SchedEngine(Engine):
             # a woken-then-dropped async receive next to a parked sync receiver (the wake must be passed on);
             # two pending senders of which the woken one is dropped un-polled (cap >= 2: the slot stays free
             # and the only receiver stays alive but idle, op K)
-            return ["%s %d 120 7 | PS: s s | CS: r r | C: %s" % (f, cap, "r" if rv else "rw"),
+            base = ["%s %d 120 7 | PS: s s | CS: r r | C: %s" % (f, cap, "r" if rv else "rw"),
                     "%s %d 120 8 | P: s s sw | P: s | CS: r %s" % (f, max(cap, 2) if cap else 0, "K" if f == "mpmcba" else "D")]
+            if not rv:
+                # a cancelled pending receive that was already handed an item must not reorder the
+                # stream for the other consumer (seeded C02-2: eager hand-off + reclaim to the front)
+                base.append("%s %d 300 5 | P: s s s | C: rw | C: r r r" % (f, cap))
+            return base
         if maxp >= 2:
             # the last sender leaves while the async receiver registers; re-poll with another waker
             return ["%s %d 120 9 | P: s | P: | C: r r D" % (f, cap),
